@@ -5,30 +5,45 @@ From BigNum Require Import Base BaseLemmas X86 AddSub AddSubProofs ShiftCore Shi
 Open Scope Z_scope.
 
 (** * Conditions on the source-extracted parameters *)
+
+(** the regime tests `x.len() <= 32`, `x.len() <= 256` may be written with `<=` or `<`;
+    [eff c m] is the largest length for which the test holds.  The swap test may be `<` or
+    `<=`.  The half-Karatsuba test `x.len() * 2 <= y.len()` is unconstrained: whichever way it
+    decides, both half-Karatsuba and Karatsuba are correct for the operands that reach them
+    (it matters for the cost only, see C20). *)
+Definition ok_cmp (c : cmpop) : bool := match c with Cle | Clt => true | _ => false end.
+Definition eff (c : cmpop) (m : Z) : Z := match c with Clt => m - 1 | _ => m end.
+
 Definition mul_ok (p : mul_params) : bool :=
   addsub_ok (mp_as p)
-  && cmpop_eqb (mp_swap_cmp p) Clt
-  && cmpop_eqb (mp_long_cmp p) Cle && (1 <=? mp_long_max p)
-  && cmpop_eqb (mp_half_cmp p) Cle && (1 <=? mp_half_mul p)
-  && cmpop_eqb (mp_kara_cmp p) Cle && (3 <=? Z.max (mp_long_max p) (mp_kara_max p))
+  && ok_cmp (mp_swap_cmp p)
+  && ok_cmp (mp_long_cmp p) && (1 <=? eff (mp_long_cmp p) (mp_long_max p))
+  && ok_cmp (mp_kara_cmp p)
+  && (3 <=? Z.max (eff (mp_long_cmp p) (mp_long_max p)) (eff (mp_kara_cmp p) (mp_kara_max p)))
   && (mp_half_split p =? 2) && (mp_kara_split p =? 2) && (1 <=? mp_kara_extra p)
   && (mp_toom_div p =? 3) && (mp_toom_extra p =? 1) && (1 <=? mp_prod_extra p).
 
 Lemma cmpop_eqb_eq a b : cmpop_eqb a b = true -> a = b.
 Proof. destruct a, b; simpl; congruence. Qed.
 
+Lemma eff_spec c m a : ok_cmp c = true -> cmp_eval c a m = (a <=? eff c m).
+Proof.
+  destruct c; try discriminate; intros _; cbn [cmp_eval eff]; [|reflexivity].
+  destruct (Z.ltb_spec a m), (Z.leb_spec a (m - 1)); auto; lia.
+Qed.
+
 Lemma mul_ok_inv p : mul_ok p = true ->
-  addsub_ok (mp_as p) = true /\ mp_swap_cmp p = Clt /\
-  mp_long_cmp p = Cle /\ 1 <= mp_long_max p /\
-  mp_half_cmp p = Cle /\ 1 <= mp_half_mul p /\
-  mp_kara_cmp p = Cle /\ 3 <= Z.max (mp_long_max p) (mp_kara_max p) /\
+  addsub_ok (mp_as p) = true /\ ok_cmp (mp_swap_cmp p) = true /\
+  ok_cmp (mp_long_cmp p) = true /\ 1 <= eff (mp_long_cmp p) (mp_long_max p) /\
+  True /\ True /\
+  ok_cmp (mp_kara_cmp p) = true /\
+  3 <= Z.max (eff (mp_long_cmp p) (mp_long_max p)) (eff (mp_kara_cmp p) (mp_kara_max p)) /\
   mp_half_split p = 2 /\ mp_kara_split p = 2 /\ 1 <= mp_kara_extra p /\
   mp_toom_div p = 3 /\ mp_toom_extra p = 1 /\ 1 <= mp_prod_extra p.
 Proof.
   unfold mul_ok; intros H.
-  do 13 (apply andb_prop in H as [H ?]).
+  do 11 (apply andb_prop in H as [H ?]).
   repeat match goal with
-         | H : cmpop_eqb _ _ = true |- _ => apply cmpop_eqb_eq in H
          | H : (_ <=? _) = true |- _ => apply Z.leb_le in H
          | H : (_ =? _) = true |- _ => apply Z.eqb_eq in H
          end.
